@@ -13,6 +13,7 @@ import (
 	"os"
 	"os/exec"
 	"path/filepath"
+	"strconv"
 	"strings"
 	"sync"
 	"time"
@@ -360,6 +361,8 @@ var (
 	statQueries   int
 	statCached    int
 	statSolverS   float64
+	statDisk      int
+	diskCacheDir  string
 	solverErrOnce sync.Once
 )
 
@@ -449,6 +452,22 @@ func solve(query string, timeoutMs int, wantModel bool) *SolveResult {
 		cacheMu.Unlock()
 		close(done)
 	}()
+	if diskCacheDir != "" {
+		if b, err := os.ReadFile(filepath.Join(diskCacheDir, key)); err == nil {
+			f := strings.Fields(string(b))
+			if len(f) >= 3 && f[0] == "unsat" {
+				secs, _ := strconv.ParseFloat(f[2], 64)
+				res := &SolveResult{Status: "unsat", Backend: f[1], Secs: secs, Detail: map[string]string{f[1]: "unsat (memoized: identical query discharged earlier in this sandbox)"}}
+				statMu.Lock()
+				statDisk++
+				statMu.Unlock()
+				cacheMu.Lock()
+				queryCache[key] = res
+				cacheMu.Unlock()
+				return res
+			}
+		}
+	}
 	file := filepath.Join(scratch(), key+".smt2")
 	body := query + "(check-sat)\n"
 	if wantModel {
@@ -516,6 +535,9 @@ func solve(query string, timeoutMs int, wantModel bool) *SolveResult {
 	statQueries++
 	statSolverS += res.Secs
 	statMu.Unlock()
+	if diskCacheDir != "" && res.Status == "unsat" {
+		os.WriteFile(filepath.Join(diskCacheDir, key), []byte(fmt.Sprintf("unsat %s %.3f\n", res.Backend, res.Secs)), 0o644)
+	}
 	cacheMu.Lock()
 	queryCache[key] = res
 	cacheMu.Unlock()
